@@ -166,6 +166,9 @@ func (lp *logProcessor[INPUT, OUTPUT]) forgeLog(
 		if errors.Is(err, postgres.ErrDeadlockDetected) || errors.Is(err, ledgerstore.ErrIdempotencyKeyConflict{}) {
 			return lp.forgeLogRetry(ctx, store, parameters, fn)
 		}
+		if log, output, ikErr := lp.fetchConcurrentIKOutcome(ctx, store, parameters); ikErr != nil || output != nil {
+			return log, output, output != nil, ikErr
+		}
 		return nil, nil, false, fmt.Errorf("unexpected error while forging log: %w", err)
 	}
 
@@ -210,12 +213,26 @@ func (lp *logProcessor[INPUT, OUTPUT]) forgeLogRetry(
 
 				return log, output, true, nil
 			default:
+				if log, output, ikErr := lp.fetchConcurrentIKOutcome(ctx, store, parameters); ikErr != nil || output != nil {
+					return log, output, output != nil, ikErr
+				}
 				return nil, nil, false, fmt.Errorf("unexpected error while forging log: %w", err)
 			}
 		}
 
 		return log, output, false, nil
 	}
+}
+
+// fetchConcurrentIKOutcome is called when an operation carrying an idempotency key has failed. A
+// concurrent request with the same key may have committed while this one was waiting on its locks;
+// the failure (insufficient funds, already reverted, not found...) is then only the echo of that
+// committed write, and the caller must get the original outcome as an idempotency hit instead.
+func (lp *logProcessor[INPUT, OUTPUT]) fetchConcurrentIKOutcome(ctx context.Context, store Store, parameters Parameters[INPUT]) (*ledger.Log, *OUTPUT, error) {
+	if parameters.IdempotencyKey == "" || parameters.DryRun {
+		return nil, nil, nil
+	}
+	return lp.fetchLogWithIK(ctx, store, parameters)
 }
 
 func (lp *logProcessor[INPUT, OUTPUT]) fetchLogWithIK(ctx context.Context, store Store, parameters Parameters[INPUT]) (*ledger.Log, *OUTPUT, error) {
